@@ -331,6 +331,7 @@ class Den:
         self.val, self.lmt, self.err, self.errlmt = {}, {}, {}, {}
         self.st = {n.label: {"tot": 0, "k": 0, "pend": set(), "slack": set(), "idx": 0, "calls": {"s": 0, "e": 0, "x": 0},
                               "fb": None, "started": False} for n in self.nodes}
+        self.abandoned = False   # F6: a scheduler node was due in a child cycle that an exception ended
         self.dev = []       # (class, message)
         self.stats = {"o1_slack": 0, "cycles": 0, "user_runs": 0, "errors": 0}
 
@@ -480,6 +481,13 @@ class Den:
                 break
             # a failed try region: the remaining inner nodes are not evaluated this cycle
             if n.region is not None and n.region in failed_regions:
+                if n.kind == "script":
+                    hit = any((not r[1]) and src_ticked(r) for r in n.ins) or any(e[0] == t for e in st["pend"])
+                    if hit and st["pend"]:
+                        # F6: the node was due in the cycle the exception ended; its evaluation is abandoned
+                        # with the cycle and, with it, the bookkeeping of its own timer (consume the due
+                        # event, re-arm the later ones)
+                        self.abandoned = True
                 continue
             k = n.kind
             in_tick = any((not r[1]) and src_ticked(r) for r in n.ins)
@@ -666,7 +674,8 @@ def den_check(p, trace_line, quirk=False):
                     if n.kind == "script" and t in d.st[n.label]["slack"]:
                         d.force_slack.setdefault(n.label, set()).add(t)
             else:
-                dev.append(("times", "cycle %d at time %d but the earliest pending wake-up is %s (pending %s)"
+                tag = "[F6 abandoned-rearm] " if d.abandoned else ""
+                dev.append(("times", tag + "cycle %d at time %d but the earliest pending wake-up is %s (pending %s)"
                             % (ci, t, exp, sorted(must)[:6])))
                 return dev, d
         if t <= last and ci > 0:
@@ -682,7 +691,8 @@ def den_check(p, trace_line, quirk=False):
             cls = "userrun"
             if any(x.startswith("X ") for x in miss + extra):
                 cls = "error"
-            dev.append((cls, "cycle at %d: user-code runs differ from the dataflow reading: missing %s unexpected %s"
+            tag = "[F6 abandoned-rearm] " if d.abandoned else ""
+            dev.append((cls, tag + "cycle at %d: user-code runs differ from the dataflow reading: missing %s unexpected %s"
                         % (t, miss[:4], extra[:4])))
             return dev, d
         # ---- C01: order of engine-level evaluations
@@ -712,7 +722,8 @@ def den_check(p, trace_line, quirk=False):
     must, _ = d.wake_times(last)
     must = {x for x in must if x < p.end}
     if must and not fail:
-        dev.append(("times", "run ended after time %d although a wake-up at %d (< end %d) was pending" % (last, min(must), p.end)))
+        tag = "[F6 abandoned-rearm] " if d.abandoned else ""
+        dev.append(("times", tag + "run ended after time %d although a wake-up at %d (< end %d) was pending" % (last, min(must), p.end)))
     return dev, d
 
 
@@ -958,6 +969,43 @@ def gen_try(rng, capture_kind):
     return p
 
 
+def gen_try_sched(rng):
+    """a try_except-wrapped sub-graph in which a thrower and an independent self-scheduling node are
+    siblings: wake-ups pending in the sibling when the thrower's exception ends the child's cycle
+    must survive (separate inputs); with a shared input the sibling can be due in the failing cycle"""
+    p = Prog()
+    p.end = p.start + rng.choice([16, 22])
+    p.ticks[901] = gen_ticks(rng, p.start, rng.randint(3, 7), 12)
+    p.ticks[903] = gen_ticks(rng, p.start, rng.randint(1, 3), 12)
+    if p.ticks[903][0][0] != p.start:       # valid from the first cycle on (keeps the known finding F2 out of this stream)
+        p.ticks[903].insert(0, (p.start, 1))
+    if p.ticks[901][0][0] != p.start:
+        p.ticks[901].insert(0, (p.start, 2))
+    p.faults[77] = ["e%d" % k for k in sorted(rng.sample(range(1, 6), rng.randint(1, 3)))]
+    sc = gen_script(rng)
+    while len(sc) < 4:
+        sc.append(["s%d" % rng.choice([2, 3, 5])])
+    if not any(t[0] == "s" and t[1:2] not in ("0", "") for ops in sc[:2] for t in ops):
+        sc[1].append("s%d" % rng.choice([2, 3, 4]))
+    p.scripts[902] = sc
+    shape = rng.choice(["sep", "sep", "sep", "noin", "shared"])
+    sub = [Stmt(10, "thrower", [77, "$0"]),
+           Stmt(11, "script", [902] + ({"sep": ["$1"], "noin": [], "shared": ["$0"]}[shape]))]
+    if rng.random() < 0.5:
+        sub.reverse()
+    sub.append(Stmt(12, "add", [10, 11]))
+    if rng.random() < 0.4:
+        sub.append(Stmt(13, "acc", [12])); out = "13"
+    else:
+        out = "12"
+    p.subs[1] = [2, sub, out]
+    body = [Stmt(1, "src", [901]), Stmt(7, "src", [903]), Stmt(2, "tryx", [1, 1, 7]),
+            Stmt(3, "tryout", [2]), Stmt(4, "tryerr", [2]), Stmt(5, "sink", [3]),
+            Stmt(8, "acc", [1]), Stmt(9, "sink", [8])]
+    p.root = kahn_order(body)
+    return p
+
+
 def gen_sched_capture(rng):
     """a node that owns a NodeScheduler, is also driven by an input, throws in some of its evaluations
     (with scheduler events pending / firing) and has error capture on: later wake-ups must survive"""
@@ -1081,12 +1129,19 @@ def gen_sharing(rng):
             # duplicate an existing expression: same scalar+inputs (shareable), other scalar, or swapped inputs
             pick = rng.choice(exprs)
             src = next(s for s in body if s.lbl == pick)
-            mode = rng.choice(["same", "same", "scalar", "swap"])
+            mode = rng.choice(["same", "same", "scalar", "swap", "passive", "passive"])
             k, a, b = src.args
             if mode == "scalar":
                 k = int(k) + 1
             elif mode == "swap":
                 a, b = b, a
+            elif mode == "passive":
+                # f(a, b) vs f(a, passive(b)): same definition, scalar and sources, different activation
+                flip = lambda x: str(x)[1:] if str(x).startswith("~") else "~" + str(x)
+                if rng.random() < 0.7: b = flip(b)
+                else: a = flip(a)
+                if str(a).startswith("~") and str(b).startswith("~"):
+                    a = str(a)[1:]      # wiring rejects a node with every input passive
             body.append(Stmt(lbl, "addk", [k, a, b]))
         else:
             body.append(Stmt(lbl, "addk", [500 + 2 * lbl, rng.choice(pool), rng.choice(pool)]))
